@@ -225,6 +225,36 @@ fn check_history(c: &Cfg, faults: &[(u64, FaultKind)], p: &mut Partial, tag: &st
             }
         }
     }
+    // the diagonal scale is observable on every draw without trusting any counter: the
+    // transformed gradient is the gradient times the scale. A draw whose successor shows another
+    // scale must carry the transformation-update event.
+    if matches!(c.preset, Preset::DiagNuts | Preset::DiagMclmc) && c.flags & 1 != 0 && c.flags & 4 != 0 {
+        let scale_of = |r: &crate::common::runner::DrawRec| -> Option<Vec<f64>> {
+            let g = vec_of(&r.stats, "gradient")?;
+            let gy = vec_of(&r.stats, "transformed_gradient")?;
+            if g.len() != gy.len() || g.iter().any(|x| x.abs() < 1e-9 || !x.is_finite()) || gy.iter().any(|x| !x.is_finite()) {
+                return None;
+            }
+            Some(g.iter().zip(&gy).map(|(a, b)| b / a).collect())
+        };
+        for d in 0..res.draws.len().saturating_sub(1) {
+            let (Some(a), Some(b)) = (scale_of(&res.draws[d]), scale_of(&res.draws[d + 1])) else { continue };
+            p.count("diagonal_scales_observed_on_consecutive_draws", 1);
+            let changed = a.iter().zip(&b).any(|(x, y)| (x - y).abs() > 1e-9 * x.abs().max(y.abs()));
+            let ev = get(&res.draws[d].stats, "transformation_update_id").is_some();
+            if changed && !ev {
+                viol(
+                    "transformation-changed-without-update-event",
+                    format!("draw {d}: scale (transformed gradient / gradient) {a:?}, draw {}: {b:?}, but draw {d} carries no transformation_update_id", d + 1),
+                    p,
+                );
+                break;
+            }
+            if changed {
+                p.count("observed_scale_changes_with_event", 1);
+            }
+        }
+    }
     // transformation-update events <=> the transformation changed
     if types.contains_key("transformation_update_id") {
         for d in 0..res.draws.len() {
